@@ -15,6 +15,7 @@ import time
 from sim import env, nodeworld
 from sim.harness import Check, Violation
 
+from frappy.errors import HardwareError
 from frappy.core import Drivable, FloatRange, IntRange, Limit, Module, Parameter, Writable
 from frappy.extparams import FloatEnumParam, StructParam
 from frappy.mixins import HasControlledBy, HasOutputModule
@@ -64,6 +65,9 @@ class C18(Check):
                       'v': {m: round(rng.random() * 100, 2) for m in members}, 'mv': round(rng.random() * 100, 2)}
                 if rng.random() < 0.3:
                     op['v'] = {m: op['v'][m] for m in rng.sample(members, rng.randrange(1, len(members) + 1))}
+                if rng.random() < 0.2:
+                    # the hardware fails once during this operation, at this member (or at the combined access)
+                    op['fail'] = rng.choice(members)
             elif r < 0.5:
                 k = rng.choice(['float', 'index', 'read'])
                 op = {'group': 'fe', 'kind': k, 'v': rng.choice([0.0, 1e-4, 0.0012, 0.011, 0.3, 0.55, 0.9, 3.0, 700.0, 2000.0]),
@@ -89,14 +93,24 @@ class C18(Check):
         members = shape['members']
         hw = {'st': {m: 1.0 for m in members}}
 
+        def hwfault(access, member=None):
+            """one-shot hardware fault armed by an operation: the access of one member (or the combined access) fails"""
+            f = hw.get('fail')
+            if f and f[0] == access and (member is None or f[1] == member):
+                hw['fail'] = None
+                sim.count('fault.hw-' + access)
+                raise HardwareError(f'simulated fault on {access} of {member or "struct"}')
+
         ns = {'__module__': __name__}
         ns['st'] = StructParam('struct', {m: Parameter(f'member {m}', FloatRange(0, 100)) for m in members},
                                prefix='st_', readonly=False)
         if shape['struct_rw']:
             def read_st(self):
+                hwfault('read')
                 return dict(hw['st'])
 
             def write_st(self, value):
+                hwfault('write')
                 hw['st'] = dict(value)
                 return dict(hw['st'])
             ns['read_st'] = read_st
@@ -104,9 +118,11 @@ class C18(Check):
         else:
             for m in members:
                 def rf(self, m=m):
+                    hwfault('read', m)
                     return hw['st'][m]
 
                 def wf(self, value, m=m):
+                    hwfault('write', m)
                     hw['st'][m] = value
                     return value
                 ns[f'read_st_{m}'] = rf
@@ -194,6 +210,8 @@ class C18(Check):
             exc = None
             g, k, who = op['group'], op['kind'], op['who']
             sim.count('c18.wire-op' if who == 'wire' else 'c18.driver-op')
+            if op.get('fail'):
+                hw['fail'] = ('read' if k.startswith('read') else 'write', op['fail'])
             try:
                 if g == 'struct':
                     sim.count('c18.struct-op')
@@ -275,6 +293,7 @@ class C18(Check):
             except Exception as e:   # noqa
                 exc = f'{type(e).__name__}: {e}'[:200]
             time.sleep(0.05)
+            hw['fail'] = None
             steps.append({'op': op, 'before': before, 'after': snapshot(), 'reply': reply, 'exc': exc,
                           'xlog': list(hw.get('xlog', ()))})
             hw['xlog'] = []
